@@ -922,9 +922,21 @@ var _ uuid.UUID
 //@ assume
 //@ modifies nothing
 
-//@ func (*storage/raft.RaftGroup).Propose
+//@ func iface:github.com/coreos/etcd/raft.Node.Propose
 //@ props C11 C14
 //@ assume
+//@ modifies nothing
+//@ func (*storage/raft.RaftGroup).Propose
+//@ props C11 C14
+//@ ghost handed int = 0
+//@ ghost raftErr error = nil
+//@ at call Node.Propose
+//@ requires [C11 proposes-the-given-bytes-once] $arg2 == data && handed == 0
+//@ set handed = 1
+//@ set raftErr = $ret0
+//@ end
+//@ requires [wf] !isnil(this.raft)
+//@ ensures [C11 rafts-answer-is-returned] handed == 1 && ret == raftErr
 //@ modifies nothing
 //@ func iface:storage/raft.Group.Propose
 //@ props C12 C11 C14
@@ -1640,9 +1652,33 @@ var _ uuid.UUID
 //@ requires [wf] this.raftMu != nil && this.log != nil && this.raftTransport != nil && !isnil(this.wal)
 //@ modifies * except set catalogue
 
-//@ func (*storage.partition).unloadRaft
+// stopping to serve a partition on this node (C14 "its partitions stop serving", C06 "deleting a group"): the group is stopped
+// BEFORE its log is deleted (the ready loop must not write into a log that is being removed), the log of exactly this
+// partition's store is deleted, once, and the partition forgets the group; unloading what is not loaded is an error
+//@ func (*storage/raft.RaftGroup).Stop
 //@ props C05 C06 C14
 //@ assume
+//@ modifies * except set catalogue
+//@ func iface:storage/wal.WAL.DeleteGroup
+//@ props C05 C06 C14
+//@ assume
+//@ modifies * except set catalogue
+//@ func (*storage.partition).unloadRaft
+//@ props C05 C06 C14
+//@ safety UNCLAIMED
+//@ ghost stopped int = 0
+//@ ghost deleted int = 0
+//@ at call RaftGroup).Stop
+//@ requires [C14 stops-its-own-group] $arg0 == this.raft && stopped == 0 && deleted == 0
+//@ set stopped = 1
+//@ end
+//@ at call WAL.DeleteGroup
+//@ requires [C06 C14 log-deleted-after-the-group-stopped] stopped == 1 && deleted == 0 && $arg0 == this.wal
+//@ set deleted = 1
+//@ end
+//@ requires [wf] this.raftMu != nil && this.log != nil
+//@ ensures [C14 unloaded] isnil(ret) ==> this.raft == nil && stopped == 1 && deleted == 1
+//@ ensures [C14 not-loaded-is-an-error] old(this.raft) == nil ==> ret == RaftNotLoadedOnNodeErr && stopped == 0 && deleted == 0
 //@ modifies * except set catalogue
 
 // C14: bringing a partition's replica set to a recorded one (snapshot restore): afterwards the partition lists exactly the
